@@ -301,6 +301,7 @@ func srvScript(t *testing.T, r *Rng, s *Stream, c *SrvConf, replaySteps []script
 		}
 		trx := time.Now().UnixNano()
 		env.Take()
+		s.Pending(append(append([]string{cfgLine}, mon.hist...), fmt.Sprintf("rx t=%d b=%s d=0 tend=%d probes=-", trx, Hex(frame), trx)))
 		env.Seg.Inject(0x0800, frame)
 		time.Sleep(settle)
 		synctest.Wait()
